@@ -309,6 +309,35 @@ class Ctx:
                         res.counterexample.append(line)
         res.error_text = "\n".join(errs)
 
+    def apalache(self, module, init, inv, length, cinit=None, timeout=600, label=None, expect_error=False,
+                 files=None):
+        """Bounded symbolic check with Apalache (used for inductive invariants: length 0 from Init,
+        length 1 from the invariant itself).  Returns True iff no error was found."""
+        d = self.subdir("apa")
+        for f in os.listdir(SPEC_DIR):
+            if f.endswith(".tla"):
+                shutil.copy(os.path.join(SPEC_DIR, f), d)
+        for name, text in (files or {}).items():
+            open(os.path.join(d, name), "w").write(text)
+        argv = ["timeout", "-k", "10", str(timeout), "apalache-mc", "check", "--out-dir=" + os.path.join(d, "out"),
+                "--init=" + init, "--inv=" + inv, "--length=%d" % length]
+        if cinit:
+            argv.append("--cinit=" + cinit)
+        argv.append(module + ".tla")
+        t = time.time()
+        p = subprocess.run(argv, cwd=d, stdout=subprocess.PIPE, stderr=subprocess.STDOUT, text=True)
+        out = p.stdout
+        ok = "The outcome is: NoError" in out and p.returncode == 0
+        err = "The outcome is: Error" in out
+        if not ok and not err:
+            raise Infra("apalache failed (rc=%d): %s\n%s" % (p.returncode, " ".join(argv), out[-2000:]))
+        self.cov.setdefault("apalache_runs", []).append({
+            "label": label or module, "cmd": " ".join(argv[4:]), "outcome": "NoError" if ok else "Error",
+            "wall_s": round(time.time() - t, 2)})
+        self.log("Apalache %s init=%s inv=%s length=%d: %s, %.1fs" % (module, init, inv, length,
+                                                                      "NoError" if ok else "Error", time.time() - t))
+        return ok
+
     def validate_trace(self, module, trace_path, cfg=None, timeout=900, files=None, label=None, traces=1):
         """Trace validation: TLC must consume every line of trace_path (POSTCONDITION Accepted).
 
